@@ -60,3 +60,10 @@ package forwarder
 //@   ensures topic == "" && len(messages) > 0 ==> result != nil && calls(P) == old(calls(P)) [empty-destination-refused]
 //@   inv loop 1: len(envelopedMessages) == rangeindex + 1 && calls(P) == old(calls(P)) && (forall i int :: 0 <= i && i <= rangeindex ==> envelopedMessages[i] != nil && envCarries(bytes(envelopedMessages[i].Payload), topic, messages[i])) && (rangeindex >= 0 ==> topic != "") [enveloped-so-far]
 //@   panics-ensures calls(P) == old(calls(P)) + 1 && panicked(P, old(calls(P)))
+
+//@ func NewForwarder
+//@   requires config.Router != nil ==> routerBuilt(config.Router)
+//@   ensures result1 != nil ==> result0 == nil
+//@   ensures result1 == nil ==> result0 != nil && result0.publisher == publisherOut && result0.config.AckWhenCannotUnwrap == config.AckWhenCannotUnwrap [forwards-to-the-given-publisher-with-the-given-unwrap-policy]
+//@   ensures result1 == nil ==> ncalls(ADDNPH) == old(ncalls(ADDNPH)) + 1 && sarg(ADDNPH, 2, old(ncalls(ADDNPH))) == (config.ForwarderTopic == "" ? defaultForwarderTopic : config.ForwarderTopic) && sarg(ADDNPH, 3, old(ncalls(ADDNPH))) == subscriberIn && isclosure(sarg(ADDNPH, 4, old(ncalls(ADDNPH))), "forwarder.(*Forwarder).forwardMessage$bound") && closurevar(sarg(ADDNPH, 4, old(ncalls(ADDNPH))), 0) == result0 [consumes-the-forwarder-topic-with-forwardMessage-as-a-no-publisher-handler]
+//@   modifies config.Router.middlewares, map(config.Router.handlers), wg(config.Router.handlersWg)
